@@ -56,13 +56,14 @@ theorem fill_round {c n : Nat} {s : State} (h : Filled n s) (hn : n < c) :
       Filled (n + 1) s' := by
   obtain ⟨hq, htok, hreset, hstop, hsc, hpc, hcpc, hepc, hcl, hcq, hcl', hcw, hcr, hw, u, hsubs, hlen, hupc, huc, hux⟩ := h
   obtain ⟨p, subs, epc, closed, cq, cl, cw, cr, waitS, retS, out, calls⟩ := s
-  obtain ⟨q, token, reset, stopped, stopClosed, pc, cpc, now, nextId, log⟩ := p
+  obtain ⟨q, token, reset, stopped, stopClosed, pc, cpc, now, nextId, log, timer, readAt, armAt⟩ := p
   simp only at hq htok hreset hstop hsc hpc hcpc hepc hcl hcq hcl' hcw hcr hw hsubs
   subst hq htok hreset hstop hsc hpc hcpc hepc hcl hcq hcl' hcw hcr hw hsubs
   let r : It := ⟨0, now + 10, 0, nextId⟩
   refine ⟨{ p := { q := [], token := .free, reset := false, stopped := false, stopClosed := false, pc := .absent,
                    cpc := .idle, now := now + 10, nextId := nextId + 1,
-                   log := .exec r (now + 10) :: .pop r :: .enq r :: log },
+                   log := .exec r (now + 10) :: .pop r :: .enq r :: log, timer := timer, readAt := now + 10,
+                   armAt := armAt },
             subs := [{ u with buf := u.buf ++ [r] }], epc := .idle, closed := false, cq := 0, cl := 0, cw := 0,
             cr := 0, waitS := 0, retS := retS, out := out ++ [r], calls := (nextId, now) :: calls }, ?_, ?_⟩
   have h10 : now ≤ now + 10 := by omega
@@ -129,7 +130,7 @@ theorem wedge_from_full {c : Nat} {s : State} (h : Filled c s) :
     ∃ s', runFrom (cfgOrig c) s (wedgeTail s) = some s' ∧ Wedged c s' := by
   obtain ⟨hq, htok, hreset, hstop, hsc, hpc, hcpc, hepc, hcl, hcq, hcl', hcw, hcr, hw, u, hsubs, hlen, hupc, huc, hux⟩ := h
   obtain ⟨p, subs, epc, closed, cq, cl, cw, cr, waitS, retS, out, calls⟩ := s
-  obtain ⟨q, token, reset, stopped, stopClosed, pc, cpc, now, nextId, log⟩ := p
+  obtain ⟨q, token, reset, stopped, stopClosed, pc, cpc, now, nextId, log, timer, readAt, armAt⟩ := p
   simp only at hq htok hreset hstop hsc hpc hcpc hepc hcl hcq hcl' hcw hcr hw hsubs
   subst hq htok hreset hstop hsc hpc hcpc hepc hcl hcq hcl' hcw hcr hw hsubs
   let r : It := ⟨0, now + 10, 0, nextId⟩
@@ -140,7 +141,8 @@ theorem wedge_from_full {c : Nat} {s : State} (h : Filled c s) :
   have h30 : now + 20 = now + 10 + 10 := by omega
   refine ⟨{ p := { q := [r2], token := .loop, reset := true, stopped := true, stopClosed := true, pc := .running r,
                    cpc := .chClosed, now := now + 20, nextId := nextId + 2,
-                   log := .enq r2 :: .exec r (now + 10) :: .pop r :: .enq r :: log },
+                   log := .enq r2 :: .exec r (now + 10) :: .pop r :: .enq r :: log, timer := timer,
+                   readAt := now + 10, armAt := armAt },
             subs := [{ u with pc := .wantLock, ctxDone := true, exitClosed := false }], epc := .sending r 0,
             closed := false, cq := 1, cl := 0, cw := 0, cr := 0, waitS := 1, retS := retS, out := out ++ [r],
             calls := (nextId + 1, now + 10) :: (nextId, now) :: calls }, ?_, ?_⟩
